@@ -165,6 +165,12 @@ def _hand_dpp(cfg, rc):
 HAND = {"flp": _hand_flp, "mcp": _hand_mcp, "dpp": _hand_dpp, "mdpp": _hand_dpp}
 
 
+def _seed(s: int):
+    """Seed the CPU generator only (torch.manual_seed also queues CUDA/XPU seeding, which formats a
+    stack trace per call: ~1.5 ms)."""
+    torch.default_generator.manual_seed(int(s))
+
+
 def _fingerprint(td) -> str:
     h = hashlib.blake2b(digest_size=12)
     for k in sorted(td.keys()):
@@ -236,7 +242,7 @@ class C08:
         if source in ("generator", "mixed"):
             k = m if source == "generator" else max(1, m // 2)
             try:
-                torch.manual_seed(st.torch_seed("env"))
+                _seed(st.torch_seed("env"))
                 env = E.make_env(cfg)
                 rows = E.gen_rows(env, cfg, k, st.torch_seed("instances"))
                 origin = ["generator"] * len(rows)
@@ -303,7 +309,7 @@ class C08:
             if o == "hand":
                 run.probe("hand_instance")
         _instance_probes(run, cfg, insts)
-        torch.manual_seed(run.streams.torch_seed("env"))
+        _seed(run.streams.torch_seed("env"))
         with run.guard(name, "construct env"):
             env = E.make_env(cfg)
         run.results = []
